@@ -909,6 +909,20 @@ fn follow_word_after_slice(ctx: &mut Ctx) {
     }
 }
 
+/// An entry removed by an earlier action before the test looks at it: the diagnostic goes to standard
+/// error, standard output lists exactly the entries the test selects.
+fn removed_entry_slice(ctx: &mut Ctx) {
+    let cases: Vec<(Vec<&str>, bool, Vec<&str>)> = vec![(vec!["-empty"], true, vec!["ec/d/keep"]), (vec!["-perm", "-000"], false, vec!["ec/d", "ec/d/keep"]), (vec!["-uid", "0"], false, vec!["ec/d", "ec/d/keep"]), (vec!["-links", "-100"], true, vec!["ec/d", "ec/d/keep"]), (vec!["-user", "root"], false, vec!["ec/d", "ec/d/keep"]), (vec!["-samefile", "ec/d/keep"], false, vec!["ec/d/keep"]), (vec!["-inum", "+0"], false, vec!["ec/d", "ec/d/keep"])];
+    for (test, victim_is_dir, expect) in cases {
+        ctx.rep.evaluations += 1;
+        ctx.rep.nontrivial += 1;
+        ctx.rep.count("removed_entry_cases", 1);
+        if let Err(d) = crate::props::labelled::removed_entry_case(&ctx.sbx.clone(), &test, victim_is_dir, &expect) {
+            ctx.rep.violation(&format!("C13 {} on an entry that was removed just before: standard output is not exactly the selected entries (a diagnostic belongs on standard error)", test[0]), d, json!({"prop":"C13","removed_entry":true}));
+        }
+    }
+}
+
 fn run(ctx: &mut Ctx) {
     if ctx.shard == 4 % ctx.nshards {
         follow_word_after_slice(ctx);
@@ -925,6 +939,10 @@ fn run(ctx: &mut Ctx) {
     if ctx.shard == 6 % ctx.nshards {
         low_descriptor_slice(ctx);
     }
+    if ctx.shard == 8 % ctx.nshards {
+        removed_entry_slice(ctx);
+    }
+
     part_kinds(ctx);
     let sbx = ctx.sbx.clone();
     if let Err(e) = build_perm(&sbx, ctx.tier == Tier::Thorough) {
@@ -937,6 +955,10 @@ fn run(ctx: &mut Ctx) {
 }
 
 fn replay(case: &Value, ctx: &mut Ctx) -> Option<String> {
+    if case["removed_entry"] == true {
+        removed_entry_slice(ctx);
+        return ctx.rep.violations.keys().next().cloned();
+    }
     let sbx = ctx.sbx.clone();
     if case["low_descriptor"] == true {
         low_descriptor_slice(ctx);
